@@ -65,6 +65,19 @@ class Kernel:
             raise Unrecognised("mutation by `%s`" % (c[1] if c[0] == "call" else c[0]))
         if op == "call":
             nm, args = e[1], e[3]
+            if nm == "<indirect>" and isinstance(e[4], int):
+                # a call through a function pointer whose value is a known function item (`round: fn(N64) -> N64` given
+                # `N64::floor`): the call of that function
+                try:
+                    t_ = self.body.site_term(e[4])
+                    f_ = ds(self.body.place_expr(t_["callee"]["pl"], e[4], "term"))
+                    for _ in range(3):
+                        if isinstance(f_, tuple) and f_[0] == "cast":
+                            f_ = ds(f_[2])
+                    if isinstance(f_, tuple) and f_[0] == "fn":
+                        nm = f_[1].rsplit("::", 1)[-1]
+                except Exception:
+                    pass
             # a closure value handed to a helper and called there:  f()  with f a ("closureval", key, captures, kernel)
             if nm in ("call_once", "call_mut", "call") and args:
                 f = self.leaf(ds(args[0]))
@@ -134,6 +147,18 @@ class Kernel:
             if nm in ("log10",) and len(args) == 1:
                 return ("fn", "log10", T(args[0]))
             if hb is not None and not hb.is_closure and hb.key not in self.prog.exported and depth < 40:
+                # a straight-line private helper (one return expression, no branch): read in place at expression level – its
+                # parameters are replaced by the caller's argument expressions, so `n_elements(self)` is `self.len() as f64` *of
+                # the caller's self* (arrays are not scalar terms and cannot be passed as such)
+                try:
+                    hret = ds(hb.return_expr())
+                    straight = not any(isinstance(x_, tuple) and x_ and x_[0] == "phi" for x_ in walk(hret)) and \
+                        not any(hb.term(b_)["k"] == "switch" for b_ in hb.live_blocks())
+                except Exception:
+                    straight = False
+                if straight:
+                    from .rules_guard import subst as _esubst
+                    return T(_esubst(hret, {i_ + 1: a_ for i_, a_ in enumerate(args)}))
                 # any other private helper of the crate: its value as a decision tree over its own branches
                 ps = {i_ + 1: T(a_) for i_, a_ in enumerate(args)}
                 ret, updates = closure_terms(self.prog, hb, ps, kernel_cls=type(self))
@@ -153,6 +178,9 @@ class Kernel:
             i = e[1]
             if isinstance(i, tuple) and i[0] == "binop" and i[1].endswith("WithOverflow"):
                 return (MIR_BIN[i[1][:-len("WithOverflow")]], T(i[2]), T(i[3]))
+            if isinstance(i, tuple) and i[0] == "downcast" and len(i) > 2 and i[2] in ("Some", "Ok", "Continue"):
+                # the payload on the arm where the Option / Result is Some / Ok: `match x.mean() { Some(m) => g(m), .. }`
+                return T(i[1])
         if op == "unop" and e[1] == "Neg":
             return ("neg", T(e[2]))
         if op == "agg" and e[1] == "tuple" and e[3]:
